@@ -25,10 +25,17 @@ def seeded():
                     f"{(m.get('suite_with_change') or '')[:24]} | {m.get('demo_fails_with_change')} | {det} |")
     return "\n".join(rows)
 
+def checks():
+    m = json.load(open(f"{ROOT}/MANIFEST.json"))
+    rows = ["| property | deciding method | what the check covers (as built) |", "|---|---|---|"]
+    for c in m["checks"]:
+        rows.append(f"| {c['property_id']} | {c.get('technique','').replace('|','/')} | {c['level_claimed']['text'].replace('|','/')} |")
+    return "\n".join(rows)
+
 def main():
     p = f"{ROOT}/DESIGN.md"
     s = open(p).read()
-    for key, fn in (("findings", findings), ("seeded", seeded)):
+    for key, fn in (("findings", findings), ("seeded", seeded), ("checks", checks)):
         b, e = f"<!-- BEGIN {key} -->", f"<!-- END {key} -->"
         if b in s:
             s = s[:s.index(b) + len(b)] + "\n" + fn() + "\n" + s[s.index(e):]
